@@ -313,6 +313,32 @@ func init() {
 			if c.Idx%8 == 3 {
 				c01Positions(c, gen.PositionKinds[(c.Idx/8)%len(gen.PositionKinds)], "enc-diff")
 			}
+			if c.Idx%8 == 5 {
+				// every catalogued odd shape, deterministically: one type per shape and batch, a nil-heavy
+				// and an ordinary value each
+				for f := range gen.Features {
+					t, feat := gen.Type(rt.FixedRNG("C01feat", c.Idx*4096+f), 1, gen.TypeOpts{Feature: f + 1})
+					for vi, vo := range []gen.ValOpts{{NilHeavy: true}, {}} {
+						v := gen.Value(rv, t, 3, vo)
+						sub := 8000 + f*2 + vi
+						if !c.Cur(sub, curDesc(t, feat, v.Interface(), "")) {
+							continue
+						}
+						heap0 := heapInUse()
+						for pi, p := range presentations(v) {
+							for ci := range encCfgs {
+								if pi > 0 && ci != 0 && ci != 1+(sub+pi)%4 {
+									continue
+								}
+								encCompare(c, sub, "enc-diff", &encCfgs[ci], p.name, p.x, p.t, p.v, feat)
+							}
+						}
+						heapGuard(c, sub, heap0, "enc-diff", "Marshal*", feat)
+						c.NonTrivial(t.String(), stdRender(v.Interface()))
+					}
+				}
+				c.Obs("odd_shape_sweeps", 1)
+			}
 			if c.Idx%64 == 7 {
 				// acyclic sharing in a recursive type, around the depth where cycle detection starts
 				for di, d := range []int{2, 999, 1000, 1001, 1002, 1500} {
